@@ -1,4 +1,5 @@
 import RimeModel.C08.Transpose
+import RimeModel.C08.Alphabet
 import RimeModel.C08.Examples
 /-!
 C08 — syllable segmentation of an input is sound and complete.  Property theorems only.
@@ -13,7 +14,11 @@ fuzzy reading".
 
 All theorems are for EVERY prism, input byte string, delimiter set, alphabet and flag pair — no bound.
 Formal reading (DESIGN §3 C08): S1 `edges_sound` + `edges_complete`, S2 `vertices_on_path`,
-S3 `farthest_maximal` (+ `completion_only_if`), S4 `normal_tilings_complete`, S5 `indices_transpose`.
+S3 `farthest_maximal` (+ `completion_only_if`, and for the alphabet a `Load`ed prism walks —
+`searchAlphabet true pr`, all characters of all spellings — `completion_iff_loaded` /
+`completion_if_loaded`: `ComplCond` IS "the remainder begins a spelling with a normal or fuzzy
+reading" as long as the search stays below its limit of 512), S4 `normal_tilings_complete`,
+S5 `indices_transpose`.
 -/
 namespace C08
 open RimeModel.C08 RimeModel.C08.AMap
@@ -154,6 +159,50 @@ theorem completion_only_if (cfg : Cfg) (pr : Prism) (inp : Bytes) (F : Nat)
   · exact absurd h4 hne
   · obtain ⟨a, b, c⟩ := complCond_text cfg pr inp h5
     exact ⟨a, h4, b, c⟩
+
+/-- **S3, "exactly when", for a loaded prism.**  When `ExpandSearch` walks the alphabet of a prism that
+was `Load`ed from its file (`searchAlphabet true pr`: every character of every spelling — whether or not
+the prism has a spelling map, whatever characters the spellings use) and the unlimited search below the
+remainder has at most 512 results (so the limit cuts nothing), `ComplCond` at `F` says exactly:
+completion is enabled, the input is not exhausted, and the remainder `input[F..]` begins some stored
+spelling that has a normal or fuzzy reading. -/
+theorem completion_iff_loaded (cfg : Cfg) (pr : Prism) (inp : Bytes) (F : Nat)
+    (hal : cfg.alphabet = searchAlphabet true pr)
+    (hlim : (expandSearch pr cfg.alphabet (inp.drop F) 0).length ≤ kExpandSearchLimit) :
+    ComplCond cfg pr inp F ↔
+      (cfg.completion = true ∧ F < inp.length ∧
+        ∃ k d, Stored pr k d ∧ inp.drop F <+: k ∧ d.type < kAbbrev) := by
+  constructor
+  · exact fun h => complCond_text cfg pr inp h
+  · rintro ⟨hc, hF, k, d, ⟨i, hi, hd⟩, hpre, hty⟩
+    obtain ⟨row, hrow, hrk⟩ := keyIndex_some hi
+    have hmem : row ∈ pr := List.mem_of_getElem? hrow
+    have hcov : ∀ c ∈ k.drop (inp.drop F).length, c ∈ cfg.alphabet := by
+      intro c hc'
+      rw [hal]
+      exact searchAlphabet_loaded_covers hmem c (by rw [hrk]; exact List.mem_of_mem_drop hc')
+    have hfound := expandSearch_complete hi hpre hcov
+    rw [← expandSearch_limit_of_le hlim] at hfound
+    refine ⟨hc, hF, (i, k.length), hfound, ?_, d, hd, hty⟩
+    have := hpre.length_le
+    simpa using this
+
+/-- **S3, the "if" direction on the graph.**  For a loaded prism (alphabet and limit as in
+`completion_iff_loaded`): if completion is enabled and the remainder after the farthest tileable
+position `F` begins a stored spelling with a normal or fuzzy reading, the whole input is interpreted. -/
+theorem completion_if_loaded (cfg : Cfg) (pr : Prism) (inp : Bytes) (F : Nat)
+    (hal : cfg.alphabet = searchAlphabet true pr)
+    (hlim : (expandSearch pr cfg.alphabet (inp.drop F) 0).length ≤ kExpandSearchLimit)
+    (hF : Reach cfg pr inp F) (hmax : ∀ p, Reach cfg pr inp p → p ≤ F)
+    (hc : cfg.completion = true) (hlt : F < inp.length)
+    (hk : ∃ k d, Stored pr k d ∧ inp.drop F <+: k ∧ d.type < kAbbrev) :
+    (build cfg pr inp).interpretedLength = inp.length := by
+  obtain ⟨F', h1, h2, h3⟩ := farthest_maximal cfg pr inp
+  have hFF : F' = F := Nat.le_antisymm (hmax F' h1) (h2 F hF)
+  subst hFF
+  rcases h3 with ⟨_, h5⟩ | ⟨h4, _⟩
+  · exact absurd ((completion_iff_loaded cfg pr inp F' hal hlim).mpr ⟨hc, hlt, hk⟩) h5
+  · exact h4
 
 /-- **S4.**  Every tiling of the interpreted prefix by spellings read as *normal* is present as a path:
 each of its steps `[a, b)` with syllable `syl` is an edge carrying `syl` with type normal. -/
@@ -321,5 +370,17 @@ example : (build exCfg [([97], [⟨0, 7, 0⟩])] [97]).vertices = [(1, 5)] ∧
 /-- `indices_transpose` is about non-empty indices: `a'n` has two index entries -/
 example : indexAt (build exCfg exPrism exInp3).indices 0 0 = [⟨0, 2, 0, 0, 0⟩] ∧
     indexAt (build exCfg exPrism exInp3).indices 2 2 = [⟨2, 3, 7, 0, 0⟩] := by decide
+
+/-- the alphabet matters only through `Load`: syllabary { `a1`, `b` } (no spelling algebra), input `a`,
+completion on.  The loaded prism walks its stored alphabet `1ab` and completes `a` to `a1`
+(`completion_if_loaded` applies); an object that only ran `Build` walks a–z, cannot step over `1`, and
+leaves the input uninterpreted. -/
+example : searchAlphabet true [([97, 49], [⟨0, 0, 0⟩]), ([98], [⟨1, 0, 0⟩])] = [49, 97, 98] ∧
+    (build { delims := [39], completion := true, strict := false,
+             alphabet := searchAlphabet true [([97, 49], [⟨0, 0, 0⟩]), ([98], [⟨1, 0, 0⟩])] }
+       [([97, 49], [⟨0, 0, 0⟩]), ([98], [⟨1, 0, 0⟩])] [97]).interpretedLength = 1 ∧
+    (build { delims := [39], completion := true, strict := false,
+             alphabet := searchAlphabet false [([97, 49], [⟨0, 0, 0⟩]), ([98], [⟨1, 0, 0⟩])] }
+       [([97, 49], [⟨0, 0, 0⟩]), ([98], [⟨1, 0, 0⟩])] [97]).interpretedLength = 0 := by decide
 
 end C08
